@@ -4,6 +4,7 @@ import DaeVerif.C13.KeysProofs
 import DaeVerif.C13.TQStep
 import DaeVerif.C13.EPProofs
 import DaeVerif.C13.EPC
+import DaeVerif.C13.RouteProofs
 /-!
 # C13 — helper lemmas (index)
 
